@@ -366,6 +366,14 @@ func (d *DataStore) Delete(ctx context.Context, k string) error {
 	if err := c.pre(); err != nil {
 		return err
 	}
+	if c.on {
+		// Store-model adaptation: rosmar happily "deletes" a document that is already a tombstone, Couchbase Server
+		// answers key-not-found. Code under test relies on the latter (e.g. one-time session consumption), so the
+		// seam answers like the server. The check and the delete are not separated by a scheduling point.
+		if exists, err := d.DataStore.Exists(ctx, k); err == nil && !exists {
+			return c.post(sgbucket.MissingError{Key: k})
+		}
+	}
 	return c.post(d.DataStore.Delete(ctx, k))
 }
 
